@@ -121,11 +121,27 @@ thread_local! {
     static SEEN_BEFORE_PANIC: std::cell::RefCell<Vec<Violation>> = std::cell::RefCell::new(Vec::new());
 }
 
-fn is_fin(s: &str) -> bool {
-    s.contains("Finished")
+/// State texts come from the hook as `<Debug text>#<flags>`; the flags are what the engine's own
+/// predicates say (F finished, B failed/upstream-failed/aborted, U upstream-failed, A aborted). The
+/// harness classifies by the flags and by the public queries, never by the names of the states.
+fn flags(s: &str) -> &str {
+    s.rsplit_once('#').map(|x| x.1).unwrap_or("")
 }
-fn is_bad(s: &str) -> bool {
-    s.contains("Failure") || s.contains("Aborted")
+pub fn is_fin(s: &str) -> bool {
+    flags(s).contains('F')
+}
+pub fn is_bad(s: &str) -> bool {
+    flags(s).contains('B')
+}
+pub fn is_upfail(s: &str) -> bool {
+    flags(s).contains('U')
+}
+pub fn is_aborted_state(s: &str) -> bool {
+    flags(s).contains('A')
+}
+/// failed itself (not upstream-failed, not aborted)
+pub fn is_own_failure(s: &str) -> bool {
+    is_bad(s) && !is_upfail(s) && !is_aborted_state(s)
 }
 fn kind_of_state(s: &str) -> &str {
     s.split('(').next().unwrap_or("")
@@ -368,6 +384,10 @@ fn run_eval_g<S: PPGEvaluatorStrategy>(
     loop {
         // ---- transition log (C17, includes the intermediate states inside one call)
         let trans = take_transitions();
+        // what the jobs looked like when this call began, and what happened inside it, in order: the
+        // cleanup clauses speak about the moment of the offer, which may be in the middle of a call
+        let states_before_call = if opts.monitors { states_seen.clone() } else { BTreeMap::new() };
+        let trans_this_call: Vec<(String, String, String)> = if opts.monitors { trans.clone() } else { vec![] };
         for (j, from, to) in trans.iter() {
             if opts.monitors {
                 lifecycle_step(&mut res, j, from, to, &mut offers_in_log);
@@ -379,7 +399,12 @@ fn run_eval_g<S: PPGEvaluatorStrategy>(
                     }
                 }
             }
-            states_seen.insert(j.clone(), if to == "Pruned" { "Ephemeral(FinishedSkipped)".to_string() } else { to.clone() });
+            if to == "Pruned" {
+                // (the next snapshot says what a pruned job looks like)
+                states_seen.remove(j);
+            } else {
+                states_seen.insert(j.clone(), to.clone());
+            }
         }
         res.transitions.extend(trans);
 
@@ -402,8 +427,11 @@ fn run_eval_g<S: PPGEvaluatorStrategy>(
             let st: BTreeMap<&str, &str> = snap0.jobs.iter().map(|x| (x.0.as_str(), x.1.as_str())).collect();
             let eng_failed: BTreeSet<String> = g.query_failed().into_iter().collect();
             let eng_upfailed: BTreeSet<String> = g.query_upstream_failed().into_iter().collect();
-            // ---- C13
+            // ---- C13 (abort points are not in its domain: after an abort only C10 and C17 speak)
             for c in cleanup.iter() {
+                if res.aborted {
+                    break;
+                }
                 if acked.contains(c) {
                     res.v("C13", "offered-again-after-ack", c.clone());
                 }
@@ -413,9 +441,27 @@ fn run_eval_g<S: PPGEvaluatorStrategy>(
                             if !res.succeeded.contains(c) {
                                 res.v("C13", "offered-but-not-executed-successfully", c.clone());
                             }
+                            // the moment of the offer: the last transition of `c` inside this call
+                            let pos = trans_this_call.iter().rposition(|t| t.0 == *c);
                             for d in w.consumers_of(*cs) {
                                 let did = w.id(d);
-                                let ds = st.get(did.as_str()).cloned().unwrap_or("");
+                                let at_offer: Option<String> = pos.map(|p| {
+                                    let mut s = states_before_call.get(&did).cloned().unwrap_or_default();
+                                    for t in trans_this_call[..=p].iter() {
+                                        if t.0 == did {
+                                            s = t.2.clone();
+                                        }
+                                    }
+                                    s
+                                });
+                                let ds_owned = match at_offer {
+                                    // (a consumer that was pruned is finished and not failed: it was never needed)
+                                    Some(s) if s == "Pruned" => "pruned#F---".to_string(),
+                                    // (no state known yet for a job that has not moved since start-up: look at it now)
+                                    Some(s) if !s.is_empty() => s,
+                                    _ => st.get(did.as_str()).cloned().unwrap_or("").to_string(),
+                                };
+                                let ds = ds_owned.as_str();
                                 if !is_fin(ds) {
                                     res.v("C13", "offered-before-downstream-finished", format!("{} while {} is {}", c, did, ds));
                                 } else if is_bad(ds) {
@@ -431,23 +477,21 @@ fn run_eval_g<S: PPGEvaluatorStrategy>(
                 offered_cleanup.insert(c.clone());
             }
             for c in offered_cleanup.iter() {
-                if !acked.contains(c) && !cleanup.contains(c) {
+                if !res.aborted && !acked.contains(c) && !cleanup.contains(c) {
                     res.v("C13", "offer-withdrawn", c.clone());
                 }
             }
             // ---- C17 cross consistency
             for (j, s_) in st.iter() {
-                let rs = s_.contains("ReadyToRun");
-                if rs != ready.contains(*j) {
-                    res.v("C17", "ready-set-vs-state", format!("{} is {} but ready={}", j, s_, ready.contains(*j)));
+                // "finished" (the engine's own predicate) against the sets it reports
+                if is_fin(s_) && ready.contains(*j) {
+                    res.v("C17", "ready-set-vs-state", format!("{} is {} but ready=true", j, s_));
                 }
-                let rn = s_.contains("Running");
-                if rn != eng_running.contains(*j) {
-                    res.v("C17", "running-set-vs-state", format!("{} is {}", j, s_));
+                if is_fin(s_) && eng_running.contains(*j) {
+                    res.v("C17", "running-set-vs-state", format!("{} is {} but reported running", j, s_));
                 }
-                let rc = s_.contains("FinishedSuccessReadyForCleanup");
-                if rc != cleanup.contains(*j) {
-                    res.v("C17", "cleanup-set-vs-state", format!("{} is {} but offered={}", j, s_, cleanup.contains(*j)));
+                if cleanup.contains(*j) && (!is_fin(s_) || is_bad(s_)) {
+                    res.v("C17", "cleanup-set-vs-state", format!("{} is {} but offered for cleanup", j, s_));
                 }
                 let resync = match states_seen.get(*j) {
                     Some(seen) if seen != s_ => Some(seen.clone()),
@@ -533,7 +577,9 @@ fn run_eval_g<S: PPGEvaluatorStrategy>(
                 }
             }
             // ---- C02: every input of an offered (or running) job is materialised
-            for j in ready.iter().chain(my_running.iter()) {
+            // (the statement speaks about jobs on offer; what happens to the inputs of a job that is
+            // already running is C13's business)
+            for j in ready.iter() {
                 let first_offer = ready.contains(j) && !ever_ready.contains(j);
                 let s = match ids.get(j) {
                     Some(s) => *s,
@@ -577,9 +623,16 @@ fn run_eval_g<S: PPGEvaluatorStrategy>(
                             JobOutputResult::Done(v) => {
                                 // "current": what the upstream reported in this evaluation, or - if it
                                 // was skipped - what it is recorded to have produced
+                                // (exactly what it reported; for a skipped upstream any text the
+                                // configured comparison judges unaltered against its record)
+                                let wrong = match (cur_rec.get(&uid), w.history.get(&uid)) {
+                                    (Some(e), _) => *e != v,
+                                    (None, Some(e)) => *e != v && w.altered(&uid, "!!!", e, &v),
+                                    _ => false,
+                                };
                                 let expect = cur_rec.get(&uid).or_else(|| w.history.get(&uid));
                                 if let Some(e) = expect {
-                                    if *e != v {
+                                    if wrong {
                                         res.v("C02", "reported-output-of-upstream-is-not-its-current-one", format!("{} offered, get_job_output({}) = {} but its current output is {}", j, uid, v, e));
                                     }
                                 }
@@ -881,11 +934,11 @@ fn run_eval_g<S: PPGEvaluatorStrategy>(
             Disp::ExecOk
         } else if res.failed.contains(j) {
             Disp::ExecFailed
-        } else if st.contains("UpstreamFailure") || res.upstream_failed.contains(j) {
+        } else if is_upfail(st) || res.upstream_failed.contains(j) {
             Disp::UpstreamFailed
-        } else if st.contains("FinishedSkipped") {
+        } else if is_fin(st) && !is_bad(st) {
             Disp::Skipped
-        } else if st.contains("Aborted") || (res.aborted && !res.executed.contains(j)) {
+        } else if is_aborted_state(st) || (res.aborted && !res.executed.contains(j)) {
             // never started, the evaluation was aborted (whatever the engine calls its state)
             Disp::Aborted
         } else {
@@ -936,7 +989,8 @@ fn lifecycle_step(res: &mut EvalOut, j: &str, from: &str, to: &str, offers: &mut
     if is_fin(from) && !(is_fin(to) || to == "Pruned") {
         res.v("C17", "finished-became-unfinished", format!("{} {} -> {}", j, from, to));
     }
-    if from.contains("FinishedSuccess") && !to.contains("FinishedSuccess") {
+    // "a job reported as executed successfully never becomes failed or upstream-failed"
+    if is_fin(from) && !is_bad(from) && res.succeeded.contains(j) && is_bad(to) {
         res.v("C17", "success-became-something-else", format!("{} {} -> {}", j, from, to));
     }
     if to.contains("ReadyToRun") && !from.contains("ReadyToRun") {
@@ -946,7 +1000,8 @@ fn lifecycle_step(res: &mut EvalOut, j: &str, from: &str, to: &str, offers: &mut
             res.v("C17", "offered-twice", format!("{} {} -> {}", j, from, to));
         }
     }
-    if from.contains("FinishedSkipped") && to.contains("FinishedUpstreamFailure") {
+    // skipped (finished, not bad, never started) and then reached by an upstream failure
+    if is_fin(from) && !is_bad(from) && !res.executed.contains(j) && is_upfail(to) {
         res.flipped.insert(j.to_string());
     }
 }
